@@ -2021,3 +2021,350 @@ def translate_irvsmall(repo):
             "      let %s := match pindex_of %s %s with Some k_ => k_ | None => O end in" % (PI, PAIR, CUR),
             "      Some (upd %s %s %s) end) (seq 0 %s) cur_) %s (Some %s)." % (CUR, PI, newpair, Rn, ROTS, SM), ""]
     return "\n".join(out)
+
+
+# ---- positivity_graph, incomplete_profile_to_complete_profile, threshold-rule bodies, closed-subset stage, validators ----
+
+def translate_posgraph(repo):
+    """bistochastic.positivity_graph: the double loop that fills the dict of neighbours (rows 0..n-1, columns n..2n-1)"""
+    src = open(os.path.join(repo, "socialchoicekit", "bistochastic.py")).read()
+    fn = _find(ast.parse(src).body, ast.FunctionDef, "positivity_graph")
+    ps = [a.arg for a in fn.args.args]
+    if len(ps) != 1: _fail(fn, "positivity_graph(X) expected")
+    X = ps[0]; b = _body(fn)
+    if len(b) != 4: _fail(fn, "four statements expected")
+    g1 = re.fullmatch(r"(\w+) = %s\.shape\[0\]" % X, U(b[0])); g2 = re.fullmatch(r"(\w+) = dict\(\)", U(b[1]))
+    if not (g1 and g2 and U(b[3]) == "return %s" % g2.group(1)): _fail(fn, "n = X.shape[0]; G_X = dict(); loops; return G_X expected")
+    N, G = g1.group(1), g2.group(1); lo = b[2]
+    ok = (isinstance(lo, ast.For) and isinstance(lo.target, ast.Name) and U(lo.iter) == "range(%s)" % N and len(lo.body) == 1 and isinstance(lo.body[0], ast.For))
+    if ok:
+        I = lo.target.id; li = lo.body[0]
+        ok = isinstance(li.target, ast.Name) and U(li.iter) == "range(%s)" % N and len(li.body) == 1 and isinstance(li.body[0], ast.If) and not li.body[0].orelse
+    if ok:
+        J = li.target.id; cond = li.body[0]
+        ok = U(cond.test) == "%s[%s, %s] > 0" % (X, I, J) and [U(s) for s in cond.body] == ["%s[%s] = %s.get(%s, []) + [%s + %s]" % (G, I, G, I, J, N), "%s[%s + %s] = %s.get(%s + %s, []) + [%s]" % (G, J, N, G, J, N, I)]
+    if not ok: _fail(lo, "for i: for j: if X[i, j] > 0: G_X[i] = G_X.get(i, []) + [j + n]; G_X[j + n] = G_X.get(j + n, []) + [i] expected")
+    return "\n".join(["(* GENERATED by harness/translate.py from positivity_graph (bistochastic.py, line %d). Do not edit. *)" % fn.lineno,
+        "From Coq Require Import ZArith QArith List Bool.", "Import ListNotations.", "From SCK Require Import FlowModel BipModel BvN2.", "Local Open Scope Z_scope.", "",
+        "(* dict insertion on an association list of neighbour lists; G.get(k, []) is BipModel.adj *)",
+        "Fixpoint dsetl (G : bgraph) (k : Z) (l : list Z) : bgraph :=",
+        "  match G with [] => [(k, l)] | (k0, l0) :: r => if k0 =? k then (k0, l) :: r else (k0, l0) :: dsetl r k l end.",
+        "Definition gen_posgraph (%s : mat) (%s : nat) : bgraph :=" % (X, N),
+        "  fold_left (fun (%s : bgraph) (%s : nat) => fold_left (fun (%s : bgraph) (%s : nat) =>" % (G, I, G, J),
+        "      if posb (mget %s %s %s) then" % (X, I, J),
+        "        let %s := dsetl %s (Z.of_nat %s) (adj %s (Z.of_nat %s) ++ [Z.of_nat (%s + %s)]) in" % (G, G, I, G, I, J, N),
+        "        let %s := dsetl %s (Z.of_nat (%s + %s)) (adj %s (Z.of_nat (%s + %s)) ++ [Z.of_nat %s]) in %s" % (G, G, J, N, G, J, N, I, G),
+        "      else %s) (seq 0 %s) %s) (seq 0 %s) []." % (G, N, G, N), ""])
+
+
+def translate_complete(repo):
+    """profile_utils.incomplete_profile_to_complete_profile: per row, the NaN positions (np.where(np.isnan(row))[0], ascending) receive m - k + 1 ('accept')
+    or m - k + 1 .. m in the order of nan_indices (sorted: 'first'; shuffled by the sampler: 'random')"""
+    src = open(os.path.join(repo, "socialchoicekit", "profile_utils.py")).read()
+    fn = _find(ast.parse(src).body, ast.FunctionDef, "incomplete_profile_to_complete_profile")
+    ps = [a.arg for a in fn.args.args]
+    if ps != ["profile", "tie_breaker"]: _fail(fn, "(profile, tie_breaker) expected")
+    b = [s for s in _body(fn)]
+    want = ["check_tie_breaker(tie_breaker, include_accept=True)", "check_profile(profile, is_complete=False, is_strict=False)", "n = profile.shape[0]", "m = profile.shape[1]", "complete_profile = np.array(profile)"]
+    if [U(s) for s in b[:5]] != want: _fail(fn, "validation, n, m and the working copy expected first")
+    if len(b) != 8 or not isinstance(b[5], ast.For) or U(b[5].iter) != "range(n)" or not isinstance(b[5].target, ast.Name): _fail(fn, "for i in range(n) expected")
+    I = b[5].target.id
+    body = [U(s) for s in b[5].body]
+    exp = ["nan_indices = np.where(np.isnan(profile[%s]))[0]" % I, "num_nan = len(nan_indices)",
+           "if tie_breaker == 'random': np.random.shuffle(nan_indices) elif tie_breaker == 'first': nan_indices = np.sort(nan_indices)",
+           "if tie_breaker == 'accept': complete_profile[%s, nan_indices] = m - num_nan + 1 else: complete_profile[%s, nan_indices] = np.arange(m - num_nan + 1, m + 1)" % (I, I)]
+    if body != exp: _fail(b[5], "loop body: %r" % (body,))
+    if U(b[6]) != "if tie_breaker != 'accept' and isinstance(profile, StrictProfile): return StrictCompleteProfile.of(complete_profile)" or U(b[7]) != "return CompleteProfileWithTies.of(complete_profile)":
+        _fail(b[6], "the two wrapped returns expected")
+    return "\n".join(["(* GENERATED by harness/translate.py from incomplete_profile_to_complete_profile (profile_utils.py, line %d). Do not edit. *)" % fn.lineno,
+        "From Coq Require Import Arith ZArith QArith List Bool.", "Import ListNotations.", "From SCK Require Import ProfModel.", "",
+        "Inductive ctie := CAccept | CFirst | CRandom.", 
+        "Fixpoint updq (l : list oq) (i : nat) (x : oq) : list oq := match l, i with [], _ => [] | _ :: r, O => x :: r | y :: r, S j => y :: updq r j x end.",
+        "Definition nan_where (row : list oq) : list nat := filter (fun j => match nth j row None with None => true | Some _ => false end) (seq 0 (length row)).      (* np.where(np.isnan(row))[0] *)",
+        "Definition qnat (k : nat) : Q := inject_Z (Z.of_nat k).",
+        "(* one row; `shuf` is the sampler's permutation of nan_indices ('random'), np.sort leaves the ascending positions as they are *)",
+        "Definition gen_complete_row (tb : ctie) (shuf : list nat -> list nat) (row : list oq) : list oq :=",
+        "  let m := length row in", "  let nan_indices := nan_where row in", "  let num_nan := length nan_indices in",
+        "  let nan_indices := match tb with CRandom => shuf nan_indices | CFirst => nan_indices | CAccept => nan_indices end in",
+        "  match tb with",
+        "  | CAccept => fold_left (fun r j => updq r j (Some (qnat (m - num_nan + 1)))) nan_indices row",
+        "  | _ => fold_left (fun r jv => updq r (fst jv) (Some (qnat (snd jv)))) (combine nan_indices (seq (m - num_nan + 1) num_nan)) row",
+        "  end.",
+        "Definition gen_complete (tb : ctie) (shuf : list nat -> list nat) (profile : list (list oq)) : list (list oq) := map (gen_complete_row tb shuf) profile.", ""])
+
+
+def _thr_body(stmts, tag, N, M, LAM, ELI, lineno):
+    """the common body of k-ARV / lambda-TSF / (one side of) the two-sided rule, from `ranked_profile = ...` to the end of the level loop.
+    N, M: python names of n and of the number of columns; LAM: python text of k / lambda; ELI: python text of the elicitor"""
+    it = iter(stmts)
+    s = U(next(it)); g = re.fullmatch(r"(\w+) = np\.argsort\((\w+), axis=1\)\.view\(np\.ndarray\)", s)
+    if not g: _fail(stmts[0], "ranked_profile = np.argsort(profile, axis=1).view(np.ndarray) expected")
+    RK, PROF = g.group(1), g.group(2)
+    s = U(next(it)); g = re.fullmatch(r"(\w+) = %s\.elicit_multiple\(np\.arange\(%s\), %s\[:, 0\]\)" % (re.escape(ELI), N, RK), s)
+    if not g: _fail(stmts[1], "v_favorite = elicitor.elicit_multiple(np.arange(n), ranked_profile[:, 0]) expected")
+    VF = g.group(1)
+    bs = next(it)
+    if not (isinstance(bs, ast.FunctionDef) and bs.name == "binary_search"): _fail(bs, "the inner binary_search expected")
+    init = "0"
+    s = U(next(it))
+    if re.fullmatch(r"epsilon = 1e-05", s):
+        s = U(next(it)); g = re.fullmatch(r"(\w+): np\.ndarray = %s\.view\(np\.ndarray\) \* 0 \+ epsilon" % PROF, s); init = "eps"
+    else:
+        g = re.fullmatch(r"(\w+) = np\.zeros\(\(%s, %s\)\)" % (N, M), s)
+    if not g: _fail(stmts[3], "v_tilde = np.zeros((n, m)) or profile.view(np.ndarray) * 0 + epsilon expected")
+    VT = g.group(1)
+    if U(next(it)) != "%s[np.arange(%s), %s[:, 0]] = %s" % (VT, N, RK, VF): _fail(stmts[4], "v_tilde[np.arange(n), ranked_profile[:, 0]] = v_favorite expected")
+    g = re.fullmatch(r"(\w+) = np\.zeros\(%s\)" % N, U(next(it)))
+    if not g: _fail(stmts[5], "S_prev = np.zeros(n) expected")
+    PREV = g.group(1)
+    loop = next(it)
+    if not (isinstance(loop, ast.For) and isinstance(loop.target, ast.Name) and U(loop.iter) == "range(1, %s + 1)" % LAM): _fail(loop, "for l in range(1, k + 1) expected")
+    L = loop.target.id; lb = list(loop.body)
+    g = re.fullmatch(r"(\w+) = %s \*\* \(%s / \(%s \+ 1\)\)" % (M, L, re.escape(LAM)), U(lb[0]))
+    if not g: _fail(lb[0], "alpha_l = m ** (l / (k + 1)) expected")
+    AL = g.group(1)
+    g = re.fullmatch(r"(\w+) = np\.array\(\[binary_search\((\w+), 0, %s, %s, %s\[\2\]\) for \2 in range\(%s\)\]\)" % (M, AL, VF, N), U(lb[1]))
+    if not g: _fail(lb[1], "p_star = np.array([binary_search(i, 0, m, alpha_l, v_favorite[i]) for i in range(n)]) expected")
+    PS = g.group(1); k = 2; memo = None
+    g = re.fullmatch(r"(\w+) = np\.array\(\[%s\.elicit\((\w+), %s\[\2, %s\[\2\]\]\) for \2 in range\(%s\)\]\)" % (re.escape(ELI), RK, PS, N), U(lb[k]))
+    if g: memo = g.group(1); k += 1
+    g = re.fullmatch(r"(\w+) = np\.concatenate\(\[%s\[(\w+), np\.arange\(%s\[\2\] \+ (\d+), %s\[\2\] \+ (\d+), dtype=int\)\] for \2 in range\(%s\)\]\)" % (RK, PREV, PS, N), U(lb[k]))
+    if not g: _fail(lb[k], "j_indices = np.concatenate([ranked_profile[i, np.arange(S_prev[i] + a, p_star[i] + b, dtype=int)] for i in range(n)]) expected")
+    JI, a, b = g.group(1), int(g.group(3)), int(g.group(4))
+    g = re.fullmatch(r"(\w+) = np\.concatenate\(\[np\.ones\(int\(%s\[(\w+)\] - %s\[\2\]\), dtype=int\) \* \2 for \2 in range\(%s\)\]\)" % (PS, PREV, N), U(lb[k + 1]))
+    if not g or a != b: _fail(lb[k + 1], "i_indices = np.concatenate([np.ones(int(p_star[i] - S_prev[i]), dtype=int) * i for i in range(n)]) with a matching position range expected")
+    II = g.group(1)
+    s = U(lb[k + 2])
+    if memo and s == "%s[%s, %s] = %s[%s]" % (VT, II, JI, memo, II): val = "(nth i_ %s 0%%Q)" % memo
+    elif not memo and s == "%s[%s, %s] = %s[%s] / %s" % (VT, II, JI, VF, II, AL): val = "(tauof tau i_ %s)" % L      # v_favorite[i] / alpha_l is the threshold oracle of level l
+    else: _fail(lb[k + 2], "v_tilde[i_indices, j_indices] = v_favorite[i_indices] / alpha_l (or memoized_v[i_indices]) expected")
+    if U(lb[k + 3]) != "%s = %s" % (PREV, PS) or len(lb) != k + 4: _fail(lb[k + 3], "S_prev = p_star expected last in the level loop")
+    lo = "(nth i_ %s 0)" % PREV if a == 1 else "(nth i_ %s 0 + %d)" % (PREV, a - 1)
+    hi = "(nth i_ %s 0)" % PS if b == 1 else "(nth i_ %s 0 + %d)" % (PS, b - 1)
+    askm = ("          %s <- mapP (fun i_ => Ask (Z.of_nat i_, rkat (nth i_ ranked []) (nth i_ %s 0)) (fun v_ => Ret v_)) (seq 0 n) ;;\n" % (memo, PS)) if memo else ""
+    rest = list(it)
+    return rest, VT, "\n".join([
+        "(* %s (line %d): favourites, then the level loop; tau i l stands for the float v_favorite[i] / alpha_l (threshold oracle, as in the binary search) *)" % (tag, lineno),
+        "Definition gen_thr_%s (ranked : list (list Z)) (tau : list (list Q)) (eps : Q) (n : nat) (m : Z) (k : nat) : prog (list (list Q)) :=" % tag,
+        "  %s <- mapP (fun i_ => Ask (Z.of_nat i_, rkat (nth i_ ranked []) 0) (fun v_ => Ret v_)) (seq 0 n) ;;" % VF,
+        "  let %s := map (fun i_ : nat => repeat (%s)%%Q (Z.to_nat m)) (seq 0 n) in" % (VT, init),
+        "  let %s := map (fun i_ => updz (nth i_ %s []) (Z.to_nat (rkat (nth i_ ranked []) 0)) (nth i_ %s 0%%Q)) (seq 0 n) in" % (VT, VT, VF),
+        "  let %s := repeat 0 n in" % PREV,
+        "  st_ <- foldP (fun (st_ : list (list Q) * list Z) (%s : nat) => let '(%s, %s) := st_ in" % (L, VT, PREV),
+        "          %s <- mapP (fun i_ => gen_bsearch_%s (S (Z.to_nat m)) (nth i_ ranked []) (Z.of_nat i_) 0 m (tauof tau i_ %s)) (seq 0 n) ;;" % (PS, tag, L),
+        askm + "          let %s := map (fun i_ => fill (nth i_ %s []) (nth i_ ranked []) %s %s %s) (seq 0 n) in" % (VT, VT, lo, hi, val),
+        "          let %s := %s in Ret (%s, %s)) (seq 1 k) (%s, %s) ;;" % (PREV, PS, VT, PREV, VT, PREV),
+        "  Ret (fst st_).", ""])
+
+def translate_thrrules(repo):
+    out = ["(* GENERATED by harness/translate.py from the bodies of KARV / LambdaTSF / DoubleLambdaTSF get_simulated_cardinal_profile(s). Do not edit. *)",
+           "From Coq Require Import ZArith QArith List Bool.", "Import ListNotations.", "From SCK Require Import ElicitM ElicitRules.", "From SCKGen Require Import BsearchGen.", "Local Open Scope Z_scope.", ""]
+    # k-ARV
+    mod = ast.parse(open(os.path.join(repo, "socialchoicekit", "elicitation_voting.py")).read())
+    f = _find(_find(mod.body, ast.ClassDef, "KARV").body, ast.FunctionDef, "get_simulated_cardinal_profile"); ps = [a.arg for a in f.args.args]; b = _body(f)
+    if [U(x) for x in b[:3]] != ["if self.k > %s.shape[1]: raise ValueError('Invalid k')" % ps[1], "n = %s.shape[0]" % ps[1], "m = %s.shape[1]" % ps[1]]: _fail(f, "KARV: guard, n, m expected first")
+    rest, VT, txt = _thr_body(b[3:], "KARV", "n", "m", "self.k", ps[2], f.lineno)
+    if [U(x) for x in rest] != ["return CompleteValuationProfile.of(%s)" % VT]: _fail(f, "KARV: return CompleteValuationProfile.of(v_tilde) expected")
+    out.append(txt)
+    # lambda-TSF
+    mod = ast.parse(open(os.path.join(repo, "socialchoicekit", "elicitation_allocation.py")).read())
+    f = _find(_find(mod.body, ast.ClassDef, "LambdaTSF").body, ast.FunctionDef, "get_simulated_cardinal_profile"); ps = [a.arg for a in f.args.args]; b = _body(f)
+    want = ["n = %s.shape[0]" % ps[1], "m = %s.shape[1]" % ps[1], "if self.lambda_ > m: raise ValueError('Invalid lambda')", "if not isinstance(%s, StrictProfile): raise ValueError('Profile must be a StrictProfile for now')" % ps[1]]
+    if [U(x) for x in b[:4]] != want: _fail(f, "LambdaTSF: n, m and the two guards expected first")
+    rest, VT, txt = _thr_body(b[4:], "TSF", "n", "m", "self.lambda_", ps[2], f.lineno)
+    if [U(x) for x in rest] != ["return IncompleteValuationProfile.of(%s)" % VT]: _fail(f, "LambdaTSF: return IncompleteValuationProfile.of(v_tilde) expected")
+    out.append(txt)
+    # two-sided rule: the same body for k = 0, 1 over (profile_k, lambda_k, elicitor_k)
+    mod = ast.parse(open(os.path.join(repo, "socialchoicekit", "elicitation_matching.py")).read())
+    f = _find(_find(mod.body, ast.ClassDef, "DoubleLambdaTSF").body, ast.FunctionDef, "get_simulated_cardinal_profiles"); ps = [a.arg for a in f.args.args]; b = _body(f)
+    want = ["n = %s.shape[0]" % ps[1], "assert %s.shape == (n, n)" % ps[1], "assert %s.shape == (n, n)" % ps[2], "profiles = [%s, %s]" % (ps[1], ps[2]), "lambdas = [self.lambda_1, self.lambda_2]",
+            "elicitors = [%s, %s]" % (ps[3], ps[4]), "v_tildes = []", "if lambdas[0] > n or lambdas[1] > n: raise ValueError('Invalid lambda')"]
+    if [U(x) for x in b[:8]] != want: _fail(f, "DoubleLambdaTSF: preamble expected")
+    lp = b[8]
+    if not (isinstance(lp, ast.For) and U(lp.target) == "(k, profile)" and U(lp.iter) == "enumerate(profiles)"): _fail(lp, "for k, profile in enumerate(profiles) expected")
+    rest, VT, txt = _thr_body(list(lp.body), "Double", "n", "n", "lambdas[k]", "elicitors[k]", f.lineno)
+    if [U(x) for x in rest] != ["v_tildes.append(%s.astype(int))" % VT]: _fail(lp, "v_tildes.append(v_tilde.astype(int)) expected last in the side loop")
+    if [U(x) for x in b[9:]] != ["return (IntegerValuationProfile.of(v_tildes[0]), IntegerValuationProfile.of(v_tildes[1]))"]: _fail(f, "return of the two integer profiles expected")
+    out.append(txt)
+    return "\n".join(out)
+
+
+def translate_mwcs(repo):
+    """Irving.find_maximum_weight_closed_subset: the min-cut network built key by key in a dict, the seed (positive rotations outside the cut) and
+    the closure loop. Python sets are written as duplicate-free lists (add = cons when absent); the rotation weights are an input (list ws);
+    the dict P_prime has the keys 0..len-1 in this order (it is built that way by construct_sparse_rotation_poset_graph)."""
+    src = open(os.path.join(repo, "socialchoicekit", "deterministic_matching.py")).read()
+    cls = [c for c in ast.parse(src).body if isinstance(c, ast.ClassDef) and c.name == "Irving"][0]
+    fn = [f for f in cls.body if isinstance(f, ast.FunctionDef) and f.name == "find_maximum_weight_closed_subset"][0]
+    if fn.decorator_list: _fail(fn, "decorated")
+    ps = [a.arg for a in fn.args.args]
+    if len(ps) != 5: _fail(fn, "(self, P_prime, rotations, v1, v2) expected")
+    _, PP, ROTS, V1, V2 = ps
+    b = _body(fn)
+    if len(b) != 9: _fail(fn, "nine statements expected")
+    g1 = re.fullmatch(r"(\w+): Dict\[int, List\[Tuple\[int, int\]\]\] = \{-1: \[\], -2: \[\]\}", U(b[0])) or re.fullmatch(r"(\w+) = \{-1: \[\], -2: \[\]\}", U(b[0]))
+    g2 = re.fullmatch(r"(\w+) = set\(\)", U(b[1]))
+    if not (g1 and g2): _fail(b[0], "network = {-1: [], -2: []}; temp = set() expected")
+    NET, TEMP = g1.group(1), g2.group(1)
+    lp = b[2]
+    if not (isinstance(lp, ast.For) and isinstance(lp.target, ast.Name) and U(lp.iter) == PP and len(lp.body) == 3): _fail(lp, "for pi in P_prime: (three statements) expected")
+    PI = lp.target.id
+    g = re.fullmatch(r"%s\[%s\] = \[\((\w+), sys\.maxsize\) for \1 in %s\[%s\]\]" % (NET, PI, PP, PI), U(lp.body[0]))
+    if not g: _fail(lp.body[0], "network[pi] = [(rho, sys.maxsize) for rho in P_prime[pi]] expected")
+    gw = re.fullmatch(r"(\w+) = self\.rotation_weight\(%s\[%s\], %s, %s\)" % (ROTS, PI, V1, V2), U(lp.body[1]))
+    if not gw: _fail(lp.body[1], "w = self.rotation_weight(rotations[pi], v1, v2) expected")
+    W = gw.group(1); cond = lp.body[2]
+    ok = (isinstance(cond, ast.If) and U(cond.test) == "%s > 0" % W and [U(x) for x in cond.body] == ["%s[%s].append((-2, int(%s)))" % (NET, PI, W), "%s.add(%s)" % (TEMP, PI)]
+          and len(cond.orelse) == 1 and isinstance(cond.orelse[0], ast.If) and U(cond.orelse[0].test) == "%s < 0" % W and not cond.orelse[0].orelse
+          and [U(x) for x in cond.orelse[0].body] == ["%s[-1].append((%s, int(-%s)))" % (NET, PI, W)])
+    if not ok: _fail(cond, "if w > 0: network[pi].append((-2, int(w))); temp.add(pi) elif w < 0: network[-1].append((pi, int(-w))) expected")
+    g = re.fullmatch(r"\(?_, (\w+)\)? = ford_fulkerson\(%s, -1, -2\)" % NET, U(b[3]))
+    if not g: _fail(b[3], "_, min_cut = ford_fulkerson(network, -1, -2) expected")
+    CUT = g.group(1)
+    if U(b[4]) != "%s.remove(-1)" % CUT: _fail(b[4], "min_cut.remove(-1) expected")
+    g = re.fullmatch(r"(\w+) = set\(\)", U(b[5]))
+    if not g: _fail(b[5], "maximum_weight_closed_subset = set() expected")
+    CS = g.group(1); sl = b[6]
+    ok = (isinstance(sl, ast.For) and isinstance(sl.target, ast.Name) and U(sl.iter) == TEMP and len(sl.body) == 1 and isinstance(sl.body[0], ast.If) and not sl.body[0].orelse
+          and U(sl.body[0].test) == "%s not in %s" % (sl.target.id, CUT) and [U(x) for x in sl.body[0].body] == ["%s.add(%s)" % (CS, sl.target.id)])
+    if not ok: _fail(sl, "for x in temp: if x not in min_cut: closed.add(x) expected")
+    wl = b[7]
+    ok = isinstance(wl, ast.While) and U(wl.test) == "True" and len(wl.body) == 3
+    if ok:
+        g = re.fullmatch(r"(\w+) = False", U(wl.body[0])); fl = wl.body[1]
+        ok = g is not None and isinstance(fl, ast.For) and isinstance(fl.target, ast.Name) and U(fl.iter) == "%s.keys()" % PP and len(fl.body) == 2
+    if ok:
+        FLAG = g.group(1); RHO = fl.target.id
+        ok = (U(fl.body[0]) == "if %s in %s: continue" % (RHO, CS)
+              and U(fl.body[1]) == "if len(set(%s[%s]).intersection(%s)) > 0: %s.add(%s) %s = True" % (PP, RHO, CS, CS, RHO, FLAG)
+              and U(wl.body[2]) == "if not %s: break" % FLAG)
+    if not ok: _fail(wl, "the closure loop (while True: flag = False; for rho in P_prime.keys(): ...; if not flag: break) expected")
+    if U(b[8]) != "return %s" % CS: _fail(b[8], "return closed subset expected")
+    return "\n".join(["(* GENERATED by harness/translate.py from Irving.find_maximum_weight_closed_subset (deterministic_matching.py, line %d). Do not edit. *)" % fn.lineno,
+        "From Coq Require Import ZArith List Bool.", "Import ListNotations.", "From SCK Require Import FlowModel Mwcs.", "Local Open Scope Z_scope.", "",
+        "(* dict insertion on an association list (value of an existing key replaced in place, a new key appended) *)",
+        "Fixpoint dsetg (G : graph) (k : Z) (a : adjl) : graph :=",
+        "  match G with [] => [(k, a)] | (k0, a0) :: r => if k0 =? k then (k0, a) :: r else (k0, a0) :: dsetg r k a end.",
+        "(* the network and the set of positive rotations; P lists the successors of rotation pi at position pi, ws its weight *)",
+        "Definition gen_mw_build (P : list (list nat)) (ws : list Z) : graph * list nat :=",
+        "  fold_left (fun (st_ : graph * list nat) (%s : nat) => let '(%s, %s) := st_ in" % (PI, NET, TEMP),
+        "      let %s := dsetg %s (Z.of_nat %s) (map (fun rho_ : nat => (Z.of_nat rho_, maxsize)) (nthl P %s)) in" % (NET, NET, PI, PI),
+        "      let %s := wt ws %s in" % (W, PI),
+        "      if %s >? 0 then (dsetg %s (Z.of_nat %s) (lookup %s (Z.of_nat %s) ++ [(-2, %s)]), %s ++ [%s])" % (W, NET, PI, NET, PI, W, TEMP, PI),
+        "      else if %s <? 0 then (dsetg %s (-1) (lookup %s (-1) ++ [(Z.of_nat %s, - %s)]), %s)" % (W, NET, NET, PI, W, TEMP),
+        "      else (%s, %s)) (seq 0 (length P)) ([(-1, []); (-2, [])], [])." % (NET, TEMP),
+        "(* one sweep of the closure loop: (set, flag) *)",
+        "Definition gen_mw_sweep (P : list (list nat)) (st_ : list nat * bool) : list nat * bool :=",
+        "  fold_left (fun (st_ : list nat * bool) (%s : nat) => let '(%s, %s) := st_ in" % (RHO, CS, FLAG),
+        "      if memn %s %s then (%s, %s) else" % (RHO, CS, CS, FLAG),
+        "      if existsb (fun x_ => memn x_ %s) (nthl P %s) then (%s :: %s, true) else (%s, %s)) (seq 0 (length P)) st_." % (CS, RHO, RHO, CS, CS, FLAG),
+        "Fixpoint gen_mw_close (fuel : nat) (P : list (list nat)) (%s : list nat) : list nat :=" % CS,
+        "  match fuel with O => %s | S f_ => let '(cs_, flag_) := gen_mw_sweep P (%s, false) in if negb flag_ then cs_ else gen_mw_close f_ P cs_ end." % (CS, CS),
+        "(* None = the max-flow model ran out of fuel; the closure loop gets |P| + 1 sweeps *)",
+        "Definition gen_mwcs (fuel : nat) (P : list (list nat)) (ws : list Z) : option (list nat) :=",
+        "  let '(%s, %s) := gen_mw_build P ws in" % (NET, TEMP),
+        "  match ford_fulkerson fuel %s (-1) (-2) with" % NET, "  | None => None",
+        "  | Some (_, %s) =>" % CUT, "    let %s := removeZ (-1) %s in" % (CUT, CUT),
+        "    let %s := filter (fun x_ => negb (memZ (Z.of_nat x_) %s)) %s in" % (CS, CUT, TEMP),
+        "    Some (gen_mw_close (S (length P)) P %s)" % CS, "  end.", ""])
+
+
+def translate_validators(repo):
+    """utils.py: check_profile, check_valuation_profile, check_square_matrix, check_graph, check_bipartite_graph, check_tie_breaker as boolean functions
+    (true = returns normally, false = raises ValueError). Arrays are given by their rows (None = NaN); the isinstance / ndim tests hold for every array the
+    harness hands over and are read as true."""
+    src = open(os.path.join(repo, "socialchoicekit", "utils.py")).read()
+    mod = ast.parse(src)
+    def body(name): 
+        f = _find(mod.body, ast.FunctionDef, name); return f, [U(s) for s in _body(f)]
+    out = ["(* GENERATED by harness/translate.py from the validators of utils.py. Do not edit. *)", "From Coq Require Import ZArith QArith List Bool String.", "Import ListNotations.",
+           "From SCK Require Import FlowModel BipModel.", "",
+           "Definition oq := option Q.",
+           "Definition hasnan (P : list (list oq)) : bool := existsb (existsb (fun x : oq => match x with None => true | Some _ => false end)) P.      (* np.isnan(np.sum(P)) *)",
+           "Definition qvals (P : list (list oq)) : list Q := flat_map (fun row => flat_map (fun x : oq => match x with Some q => [q] | None => [] end) row) P.",
+           "Definition qmin (l : list Q) : option Q := match l with [] => None | x :: r => Some (fold_left (fun a b => if Qle_bool b a then b else a) r x) end.      (* np.nanmin; None = NaN (no number at all) *)",
+           "Definition qmax (l : list Q) : option Q := match l with [] => None | x :: r => Some (fold_left (fun a b => if Qle_bool a b then b else a) r x) end.",
+           "Definition oqeq (a : option Q) (b : Q) : bool := match a with Some x => Qeq_bool x b | None => false end.", ""]
+    f, b = body("check_profile"); P, C, S = [a.arg for a in f.args.args]
+    want = ["if isinstance(%s, np.ndarray): if np.ndim(%s) == 2: if %s and np.isnan(np.sum(%s)): raise ValueError('Profile cannot contain NaN values') if np.nanmin(%s) == 1: if not %s or not %s or np.nanmax(%s) == %s.shape[1]: return raise ValueError('Profile must contain exactly integers from 1 to M') raise ValueError('Profile must be a two-dimensional array')" % (P, P, C, P, P, C, S, P, P),
+            "raise ValueError('Profile is not in a recognized data format')"]
+    if b != want: _fail(f, "check_profile shape: %r" % (b,))
+    out += ["Definition gen_check_profile (m : nat) (%s : list (list oq)) (%s %s : bool) : bool :=" % (P, C, S),
+            "  if %s && hasnan %s then false else" % (C, P),
+            "  if oqeq (qmin (qvals %s)) 1 then (if negb %s || negb %s || oqeq (qmax (qvals %s)) (inject_Z (Z.of_nat m)) then true else false) else false." % (P, C, S, P), ""]
+    f, b = body("check_valuation_profile"); P, C = [a.arg for a in f.args.args]
+    want = ["if isinstance(%s, np.ndarray): if np.ndim(%s) == 2: if %s and np.isnan(np.sum(%s)): raise ValueError('Valuation profile cannot contain NaN values') return raise ValueError('Profile must be a two-dimensional array')" % (P, P, C, P),
+            "raise ValueError('Profile is not in a recognized data format')"]
+    if b != want: _fail(f, "check_valuation_profile shape: %r" % (b,))
+    out += ["Definition gen_check_valuation_profile (%s : list (list oq)) (%s : bool) : bool := if %s && hasnan %s then false else true." % (P, C, C, P), ""]
+    f, b = body("check_square_matrix"); M = f.args.args[0].arg
+    want = ["if isinstance(%s, np.ndarray): if np.ndim(%s) == 2: if %s.shape[0] == %s.shape[1]: return raise ValueError('Matrix must be square') raise ValueError('Matrix must be a two-dimensional array')" % (M, M, M, M),
+            "raise ValueError('Matrix is not in a recognized data format')"]
+    if b != want: _fail(f, "check_square_matrix shape: %r" % (b,))
+    out += ["Definition gen_check_square_matrix (rows cols : nat) : bool := (rows =? cols)%nat.", ""]
+    f, b = body("check_tie_breaker"); T, I = [a.arg for a in f.args.args]
+    want = ["if %s in ['random', 'first']: return" % T, "if %s and %s in ['accept']: return" % (I, T), "raise ValueError('Tie breaker is not recognized')"]
+    if b != want: _fail(f, "check_tie_breaker shape: %r" % (b,))
+    out += ["Definition gen_check_tie_breaker (%s : string) (%s : bool) : bool :=" % (T, I),
+            "  if existsb (String.eqb %s) [\"random\"%%string; \"first\"%%string] then true else if %s && existsb (String.eqb %s) [\"accept\"%%string] then true else false." % (T, I, T), ""]
+    f, b = body("check_graph"); G = f.args.args[0].arg
+    want = ["if isinstance(%s, dict): if all((isinstance(i, int) for i in %s.keys())): if all((isinstance(i, list) for i in %s.values())): for l in %s.values(): if all([i in %s.keys() for i in l]): return raise ValueError('Vertices can only be linked to other vertices') raise ValueError('Graph must contain lists as values') raise ValueError('Graph must contain integers as keys')" % (G, G, G, G, G),
+            "raise ValueError('Graph is not in a recognized data format')"]
+    if b != want: _fail(f, "check_graph shape: %r" % (b,))
+    out += ["(* only the FIRST value of the dict is inspected (the loop returns or raises in its first iteration); an empty dict falls through to a raise *)",
+            "Definition gen_check_graph (%s : bgraph) : bool :=" % G,
+            "  match %s with [] => false | (_, l) :: _ => forallb (fun i => memZ i (map fst %s)) l end." % (G, G), ""]
+    f, b = body("check_bipartite_graph"); G, X, Y = [a.arg for a in f.args.args]
+    want = ["check_graph(%s)" % G,
+            "if set(%s + %s) == set(%s.keys()): for e in %s: if e in %s: raise ValueError('Graph is not bipartite') if all([y in %s for y in %s[e]]): return raise ValueError('Graph is not bipartite') for e in %s: if all([x in %s for x in %s[e]]): return raise ValueError('Graph is not bipartite')" % (X, Y, G, X, Y, Y, G, Y, X, G),
+            "raise ValueError('Supplied X and/or Y are not consistent with the keys of the dictionary')"]
+    if b != want: _fail(f, "check_bipartite_graph shape: %r" % (b,))
+    out += ["Definition same_set (a b : list Z) : bool := forallb (fun x => memZ x b) a && forallb (fun x => memZ x a) b.",
+            "(* again only the first vertex of X (or, if X is empty, of Y) is inspected *)",
+            "Definition gen_check_bipartite_graph (%s : bgraph) (%s %s : list Z) : bool :=" % (G, X, Y),
+            "  if negb (gen_check_graph %s) then false else" % G,
+            "  if same_set (%s ++ %s) (map fst %s) then" % (X, Y, G),
+            "    match %s with" % X,
+            "    | e :: _ => if memZ e %s then false else forallb (fun y => memZ y %s) (adj %s e)" % (Y, Y, G),
+            "    | [] => match %s with e :: _ => forallb (fun x => memZ x %s) (adj %s e) | [] => false end" % (Y, X, G),
+            "    end", "  else false.", ""]
+    return "\n".join(out)
+
+
+def translate_eatscf(repo):
+    """randomized_allocation.py: SimultaneousEating.__init__ / scf (eating matrix -> Birkhoff-von Neumann terms -> one term drawn with probability
+    proportional to its coefficient -> the item of every agent) and the three delegating methods of ProbabilisticSerial (unit speeds)"""
+    src = open(os.path.join(repo, "socialchoicekit", "randomized_allocation.py")).read()
+    mod = ast.parse(src)
+    se = _find(mod.body, ast.ClassDef, "SimultaneousEating"); ps = _find(mod.body, ast.ClassDef, "ProbabilisticSerial")
+    if [x.name for x in se.body if isinstance(x, ast.FunctionDef)] != ["__init__", "bistochastic", "scf"]: _fail(se, "__init__, bistochastic, scf expected in SimultaneousEating")
+    ib = [U(x) for x in _body(_find(se.body, ast.FunctionDef, "__init__"))]
+    g = re.fullmatch(r"self\.index_fixer = (-?\d+) if zero_indexed else (-?\d+)", ib[0]) if len(ib) == 1 else None
+    if not g: _fail(se, "SimultaneousEating.__init__ shape")
+    f = _find(se.body, ast.FunctionDef, "scf"); a = [x.arg for x in f.args.args]
+    want = ["bistochastic = self.bistochastic(%s, %s)" % (a[1], a[2]), "decomposition = birkhoff_von_neumann(bistochastic)", "permutation_probabilities = [p for p, _ in decomposition]",
+            "probabilities = np.array(permutation_probabilities) / np.sum(permutation_probabilities)",
+            "chosen_permutation = decomposition[np.random.choice(len(permutation_probabilities), p=probabilities)][1]",
+            "return np.argmax(chosen_permutation, axis=1) + self.index_fixer"]
+    got = [U(x).replace("(p, _)", "p, _") for x in _body(f)]
+    if got != want: _fail(f, "SimultaneousEating.scf shape: %r" % (got,))
+    if [x.name for x in ps.body if isinstance(x, ast.FunctionDef)] != ["__init__", "bistochastic", "scf"]: _fail(ps, "__init__, bistochastic, scf expected in ProbabilisticSerial")
+    want = {"__init__": ["self.simultaneous_eating = SimultaneousEating(zero_indexed=zero_indexed)"],
+            "bistochastic": ["return self.simultaneous_eating.bistochastic(profile, np.ones(profile.shape[0]))"],
+            "scf": ["return self.simultaneous_eating.scf(profile, np.ones(profile.shape[0]))"]}
+    for name, w in want.items():
+        if [U(x) for x in _body(_find(ps.body, ast.FunctionDef, name))] != w: _fail(ps, "ProbabilisticSerial.%s shape" % name)
+    return "\n".join(["(* GENERATED by harness/translate.py from SimultaneousEating.scf / ProbabilisticSerial (randomized_allocation.py). Do not edit. *)",
+        "From Coq Require Import ZArith QArith List Bool.", "Import ListNotations.", "From SCK Require Import FlowModel.", "",
+        "Definition gen_eat_fixer (zero_indexed : bool) : Z := if zero_indexed then (%s)%%Z else (%s)%%Z." % (g.group(1), g.group(2)),
+        "(* the probability vector handed to the sampler: coefficient / sum of coefficients *)",
+        "Definition gen_eat_probabilities (decomposition : list (Q * list (Z * Z))) : list Q :=",
+        "  let permutation_probabilities := map fst decomposition in let tot := fold_left (fun a x => Qred (a + x)) permutation_probabilities 0%Q in map (fun p => Qred (p / tot)) permutation_probabilities.",
+        "(* scf: bist = the eating matrix (None = the model ran out of fuel), bvn = the decomposition routine, draw = the sampler's index; a term is the matching",
+        "   {(i, j + n)} of its permutation matrix, np.argmax of row i of that matrix is the j with (i, j + n) in the term *)",
+        "Definition gen_eat_term (bist : option (list (list Q))) (bvn : list (list Q) -> option (list (Q * list (Z * Z)))) (draw : nat) : option (list (Z * Z)) :=",
+        "  match bist with None => None | Some bistochastic => match bvn bistochastic with None => None | Some decomposition => option_map snd (nth_error decomposition draw) end end.",
+        "Definition gen_eat_alloc (fixer : Z) (n : nat) (term : list (Z * Z)) : list Z :=",
+        "  map (fun i : nat => (match find (fun p : Z * Z => (fst p =? Z.of_nat i)%Z) term with Some p => snd p - Z.of_nat n | None => 0 end + fixer)%Z) (seq 0 n).",
+        "(* ProbabilisticSerial: the same with unit speeds *)",
+        "Definition gen_ps_speeds (n : nat) : list Q := repeat 1%Q n.", ""])
